@@ -3,6 +3,6 @@ CONSTANTS
   StrictA = TRUE
   CheckCat = TRUE
   CheckOrder = FALSE
-INVARIANTS RefinesDict
+INVARIANTS RefinesDict NoTraceOfRejected
 POSTCONDITION TraceAccepted
 CHECK_DEADLOCK FALSE
